@@ -13,11 +13,18 @@
       `contains_span_cannot_grow`, `contains_is_leftmost` : the accepted prefix / reported span is the LONGEST group
       sequence at that position, the byte after it (when there is one and the verdict is not Ok) cannot extend any
       group sequence whatever follows, and ContainsIP4 reports the leftmost position at which a match starts.
-  Not proved (oracle only): the IP-position flags of GetCallIDSig (C19).
+  The Call-ID signature (`Sipsp.Proofs.SigChars`): `contains_iff_leftmost_longest` (ContainsIP4 reports exactly the
+  leftmost dotted quad, taken as long as possible), `callid_ip4_bits`: for that quad `[o, o+n)` exactly one position bit
+  is set — bit 0 iff it starts the Call-ID, bit 1 iff it ends it (and does not start it), bit 2 otherwise —, bits 3–12 are
+  the classes of the bytes OUTSIDE the quad; `callid_ip4_len` (the short length counts the bytes outside the address and
+  its reserved neighbours, in units of 4, capped at 255); `callid_noip`, `callid_flags_need_ip` (position bits only
+  when an IPv4 or IPv6 address is reported), `callid_ip6` (the IPv6 fallback in terms of the model's ContainsIP6).
+  Not proved: ContainsIP6 / IP6Prefix address correctness (no property asks for it; safety is C04).
   Model tied to ip_prefix.go by the correspondence check (functions `ip4prefix`, `containsip4`).
 -/
 import Sipsp.Proofs.IP4
 import Sipsp.Proofs.IP4Longest
+import Sipsp.Proofs.SigChars
 
 namespace Sipsp.C20
 open Sipsp
@@ -114,5 +121,30 @@ example : ip4Prefix "10.0.255.7".toUTF8.data = (true, 10, .ok, #[10, 0, 255, 7])
 example : IsIP4 ("10.0.255.7".toUTF8.data.toList.take 10) 10 0 255 7 :=
   (prefix_span "10.0.255.7".toUTF8.data (n := 10) (e := .ok) (ip := #[10, 0, 255, 7]) (by decide +kernel)).2
 example : containsIP4 "x256.1.1.1".toUTF8.data = some (2, 8, #[56, 1, 1, 1]) := by decide +kernel
+
+/-! ### the Call-ID signature: IP position flags (proved in `Sipsp.Proofs.SigChars`) -/
+
+/-- ContainsIP4 reports exactly the leftmost dotted quad, as long as possible -/
+theorem contains_iff_leftmost_longest : type_of% @Sipsp.scContainsIP4_iff_ll := @Sipsp.scContainsIP4_iff_ll
+
+/-- **IP-position flags of the Call-ID signature, IPv4**: when the Call-ID contains a dotted quad, let `[o, o+n)` be
+    its leftmost occurrence (as long as possible). Then exactly one of the three position bits is set: bit 0 iff it
+    starts the Call-ID, bit 1 iff it does not but ends it, bit 2 otherwise. Bits 3–12 are the class bits of the
+    bytes OUTSIDE `[o, o+n)`. No "Go would panic" indication. -/
+theorem callid_ip4_bits : type_of% @Sipsp.getCallIDSig_ip4_bits := @Sipsp.getCallIDSig_ip4_bits
+
+/-- **the short length of the Call-ID signature, IPv4**: a quarter (rounded up, at most 255) of the length of the
+    Call-ID without the leftmost dotted quad and without the reserved byte directly before it and the reserved
+    byte directly after it (when there are such bytes) -/
+theorem callid_ip4_len : type_of% @Sipsp.getCallIDSig_ip4_len := @Sipsp.getCallIDSig_ip4_len
+
+/-- **no address**: without a dotted quad and with ContainsIP6 finding nothing, no position bit is set and the
+    signature is that of the whole Call-ID (`scSig`); the short length is a quarter of the length, at most 255 -/
+theorem callid_noip : type_of% @Sipsp.getCallIDSig_noip_eq := @Sipsp.getCallIDSig_noip_eq
+
+/-- the position bits are set only when ContainsIP4 or ContainsIP6 reports an address -/
+theorem callid_flags_need_ip : type_of% @Sipsp.getCallIDSig_flags_need_ip := @Sipsp.getCallIDSig_flags_need_ip
+
+theorem callid_ip6 : type_of% @Sipsp.getCallIDSig_ip6 := @Sipsp.getCallIDSig_ip6
 
 end Sipsp.C20
